@@ -2,6 +2,7 @@
 From Coq Require Import ZArith Bool List Lia.
 From HV Require Import Ord Select SelectFacts Hist HistFacts.
 From HV Require Import GenAccessors GenEquivAccessors.
+From HV Require GenOrder GenEquivOrder F64 WMonad.
 Import ListNotations.
 
 (* python's max over the kept individuals: a member, no member strictly better in the problem's direction (first of the ties) *)
@@ -66,3 +67,14 @@ Example C04_translated_example :
   gen_tree_best_individual true  [[ [[[5; 3]; [4; 4]]; [[2; 9]]] ]; [ [[[7]]]; [[[1; 8]]; [[6]]] ]]%Z = Some 9%Z /\
   gen_deme_best_current_individual false [[[5; 3]; [4; 4]]; [[2; 9]]]%Z = Some 2%Z /\ gen_tree_best_individual false [[]; []] = None.
 Proof. vm_compute. repeat split. Qed.
+
+(* ---------------------------------------------------------------- Individual's ordering, TRANSLATED from the current pyhms/core/individual.py
+   (Gen/GenOrder.v: @total_ordering over __lt__ = problem.worse_than(fitnesses), __eq__ = problem.equivalent(fitnesses)): the ordering max() uses for the reported best is 'strictly better in the problem's direction' on the fitness alone *)
+Theorem C04_translated_individual_gt mx (a b : WMonad.F) : F64.fis_nan a = false -> F64.fis_nan b = false ->
+  GenOrder.gen_ind_gt mx a b = if mx then F64.flt b a else F64.fgt b a.
+Proof. exact (GenEquivOrder.ind_gt_is_strictly_better mx a b). Qed.
+Print Assumptions C04_translated_individual_gt.
+Theorem C04_translated_individual_gt_asymmetric mx (a b : WMonad.F) : F64.fis_nan a = false -> F64.fis_nan b = false ->
+  GenOrder.gen_ind_gt mx a b = true -> GenOrder.gen_ind_gt mx b a = false.
+Proof. exact (GenEquivOrder.ind_gt_asymmetric mx a b). Qed.
+Print Assumptions C04_translated_individual_gt_asymmetric.
